@@ -1,20 +1,42 @@
 (* Compact byte-string literals for the C16 case files: a byte string is written as its length and a
    list of primitive 63-bit integers holding 7 bytes each (big-endian; the last one holds the
    remaining 1..7 bytes).  Parsing a 64-character string literal costs ~4 ms in Coq 8.16, a
-   primitive integer ~40 us; only the generated cases_<k>.v files use this (no theorem does). *)
+   primitive integer ~40 us; only the generated cases_<k>.v files use this (no theorem does).
+   Decoding uses primitive shifts / masks only (round 4: sets of thousands of UTXOs). *)
 From Coq Require Import List ZArith NArith Uint63.
 Import ListNotations.
 
-Fixpoint bytes_be (k : nat) (z : Z) (acc : list N) : list N :=
+(* a 4-bit value as N, by comparisons (Uint63.to_Z walks all 63 bits) *)
+Definition nibN (n : int) : N :=
+  if (n <? 8)%uint63 then
+    if (n <? 4)%uint63 then
+      if (n <? 2)%uint63 then (if (n =? 0)%uint63 then 0 else 1)%N
+      else (if (n =? 2)%uint63 then 2 else 3)%N
+    else
+      if (n <? 6)%uint63 then (if (n =? 4)%uint63 then 4 else 5)%N
+      else (if (n =? 6)%uint63 then 6 else 7)%N
+  else
+    if (n <? 12)%uint63 then
+      if (n <? 10)%uint63 then (if (n =? 8)%uint63 then 8 else 9)%N
+      else (if (n =? 10)%uint63 then 10 else 11)%N
+    else
+      if (n <? 14)%uint63 then (if (n =? 12)%uint63 then 12 else 13)%N
+      else (if (n =? 14)%uint63 then 14 else 15)%N.
+
+Definition hi_nib (c : int) (byte_ix : int) : N := nibN (Uint63.land (Uint63.lsr c (byte_ix * 8 + 4)) 15).
+Definition lo_nib (c : int) (byte_ix : int) : N := nibN (Uint63.land (Uint63.lsr c (byte_ix * 8)) 15).
+
+(* the k low bytes of c, most significant first, in front of acc *)
+Fixpoint bytes_of_chunk (k : nat) (ix : int) (c : int) (acc : list N) : list N :=
   match k with
   | O => acc
-  | S k' => bytes_be k' (z / 256)%Z (Z.to_N (z mod 256)%Z :: acc)
+  | S k' => bytes_of_chunk k' (ix + 1)%uint63 c ((hi_nib c ix * 16 + lo_nib c ix)%N :: acc)
   end.
 
 Fixpoint unpack (n : nat) (cs : list int) : list N :=
   match cs with
   | [] => []
-  | c :: r => let k := Nat.min 7 n in bytes_be k (Uint63.to_Z c) [] ++ unpack (n - k) r
+  | c :: r => let k := Nat.min 7 n in bytes_of_chunk k 0%uint63 c [] ++ unpack (n - k) r
   end.
 
 (* lower-case hex digits (ASCII codes) of a byte string *)
@@ -25,10 +47,29 @@ Fixpoint hex_codes (l : list N) : list N :=
   | b :: r => hexdigit_code (b / 16)%N :: hexdigit_code (b mod 16)%N :: hex_codes r
   end.
 
+(* the 2k hex digits of the k low bytes of c, most significant first, in front of acc *)
+Fixpoint hex_of_chunk (k : nat) (ix : int) (c : int) (acc : list N) : list N :=
+  match k with
+  | O => acc
+  | S k' => hex_of_chunk k' (ix + 1)%uint63 c
+              (hexdigit_code (hi_nib c ix) :: hexdigit_code (lo_nib c ix) :: acc)
+  end.
+
+Fixpoint hexid_go (n : nat) (cs : list int) : list N :=
+  match cs with
+  | [] => []
+  | c :: r => let k := Nat.min 7 n in hex_of_chunk k 0%uint63 c [] ++ hexid_go (n - k) r
+  end.
+
 (* a canonical transaction id: 64 lower-case hex digits, given by its 32 bytes *)
-Definition hexid (cs : list int) : list N := hex_codes (unpack 32 cs).
+Definition hexid (cs : list int) : list N := hexid_go 32 cs.
 
 Example unpack_ex : unpack 9 [0x01020304050607%uint63; 0x0809%uint63] = [1;2;3;4;5;6;7;8;9]%N.
 Proof. vm_compute. reflexivity. Qed.
 Example hexid_ex : hex_codes [171; 5]%N = [97; 98; 48; 53]%N.
+Proof. vm_compute. reflexivity. Qed.
+Example hexid_ex2 : hexid [0xab05ff00102030%uint63; 0x0809%uint63] = hex_codes (unpack 32 [0xab05ff00102030%uint63; 0x0809%uint63]).
+Proof. vm_compute. reflexivity. Qed.
+Example hexid_ex3 : hexid_go 9 [0x01020304050607%uint63; 0xa8f9%uint63]
+  = [48;49;48;50;48;51;48;52;48;53;48;54;48;55;97;56;102;57]%N.
 Proof. vm_compute. reflexivity. Qed.
